@@ -341,62 +341,20 @@ def summarise(ctx, b, flavour):
                     return k.t(g)
         return k.t(f)
 
+    import dnf as D
+
+    def _edge_lits(pairs):
+        return project_lits(implied_facts(pairs))
+
     dmemo = {}
 
     def block_dnf(bb):
         """exact path condition of a top-frame block on one thread, as a DNF (list of frozensets of canonical literals); None when it gets too large"""
-        if bb in dmemo:
-            return dmemo[bb]
-        dmemo[bb] = None
-        if bb == 0:
-            dmemo[bb] = [frozenset()]
-            return dmemo[bb]
-        preds = [p for p in b.pred[bb] if (p, bb) not in back and p in b.reachable and not b.blocks[p]["cleanup"]]
-        out = []
-        for p in preds:
-            pd = block_dnf(p)
-            if pd is None:
-                dmemo[bb] = None
-                return None
-            gp = ev.guards(res, p)
-            edge = [g for g in ev.guards_edge(res, p, bb) if g not in gp]
-            el, einf = project_lits(implied_facts(edge))
-            if einf:
-                continue
-            out.extend(c | frozenset(el) for c in pd)
-        out = dnf_simplify(out)
-        dmemo[bb] = out if len(out) <= 48 else None
-        return dmemo[bb]
-
-    fmemo = {}
+        return D.block_dnf(ev, res, b, bb, edge_lits=_edge_lits, shared_memo=dmemo)
 
     def block_dnf_forced(bb, forced):
         """block_dnf restricted to the paths that enter each join block j of `forced` through the edge forced[j] -> j"""
-        key = (bb, forced)
-        if key in fmemo:
-            return fmemo[key]
-        fmemo[key] = None
-        if bb == 0:
-            fmemo[key] = [frozenset()]
-            return fmemo[key]
-        fd = dict(forced)
-        preds = [p for p in b.pred[bb] if (p, bb) not in back and p in b.reachable and not b.blocks[p]["cleanup"]]
-        if bb in fd:
-            preds = [p for p in preds if p == fd[bb]]
-        out = []
-        for p in preds:
-            pd = block_dnf_forced(p, forced)
-            if pd is None:
-                return None
-            gp = ev.guards(res, p)
-            edge = [g for g in ev.guards_edge(res, p, bb) if g not in gp]
-            el, einf = project_lits(implied_facts(edge))
-            if einf:
-                continue
-            out.extend(c | frozenset(el) for c in pd)
-        out = dnf_simplify(out)
-        fmemo[key] = out if len(out) <= 48 else None
-        return fmemo[key]
+        return D.block_dnf(ev, res, b, bb, edge_lits=_edge_lits, forced=tuple(forced), shared_memo=dmemo)
 
     own = "%s@" % b.name
 
